@@ -99,6 +99,7 @@ type cfg struct {
 	subCrashPm  int
 	backPressPm int
 	template    int
+	lazyProcPm  int
 }
 
 type sim struct {
